@@ -14,7 +14,7 @@ from .. import core, env, popcheck, popgen
 PROP = "C15"
 LEVEL = "exploration"
 RULE = (
-    "case = (date stratum >= 2015, population whose household members differ in the individual-level "
+    "case = (date stratum >= 2015 or one of the sampled strata of 2005-2014 with the screened node universe, population whose household members differ in the individual-level "
     "inputs).  A non-trivial item is a (stratum, group-suffixed node) pair for which some generated "
     "group had >= 2 members that differ in at least one individual-level input among the node's DAG "
     "ancestors; distinct = that pair."
